@@ -336,7 +336,7 @@ def run(rep):
     rep.floor("R-C04-allocate", 4)
     rep.floor("R-C04-max-bound", 2)
     rep.floor("R-C04-fft-formulas", 3)
-    rep.floor("R-C16-process", 10)
+    rep.floor("R-C16-process", 12)
     rep.floor("R-C06-provision", 15)
     rep.clause("R-C04-agree", "per type: getter ≡ validated minimum ≡ slice bound actually read ≡ returned count (input side, on the pre-state; bit-exact normal forms modulo alias classes of immutable fields), and getter ≡ validated minimum (≡ returned count for fixed-output / synchronous) on the output side")
     rep.clause("R-C04-counter", "fixed-input types return the loop's frame counter, incremented once per frame after the write at [n]")
